@@ -63,21 +63,25 @@ theorem sorted_yx_sorted (t : Triangle) :
 theorem area_doubled_perm (t t' : Triangle) (h : t' ∈ orders t) :
     t'.areaDoubled = t.areaDoubled ∨ t'.areaDoubled = -t.areaDoubled :=
   areaDoubled_of_mem_orders h
+example : (⟨⟨3, 1⟩, ⟨0, 0⟩, ⟨5, 7⟩⟩ : Triangle) ∈ orders ⟨⟨0, 0⟩, ⟨5, 7⟩, ⟨3, 1⟩⟩ := by decide
 
 /-- The bounding box does not depend on the vertex order. -/
 theorem bounding_box_perm (t t' : Triangle) (h : t' ∈ orders t) : t'.boundingBox = t.boundingBox :=
   boundingBox_of_mem_orders h
+example : (⟨⟨3, 1⟩, ⟨0, 0⟩, ⟨5, 7⟩⟩ : Triangle) ∈ orders ⟨⟨0, 0⟩, ⟨5, 7⟩, ⟨3, 1⟩⟩ := by decide
 
 /-- The span of every row (`sorted_clockwise().scanline_intersection(y)`) is the same for all six
 vertex orders: it only uses the sorted triple and whether the area vanishes. (`sorted_clockwise`
 itself does use the unsorted vertices; its result is discarded by `scanline_intersection`.) -/
 theorem row_span_perm (t t' : Triangle) (h : t' ∈ orders t) (y : Int) : t'.span y = t.span y := by
   rw [span_of_mem_orders h]
+example : (⟨⟨3, 1⟩, ⟨0, 0⟩, ⟨5, 7⟩⟩ : Triangle) ∈ orders ⟨⟨0, 0⟩, ⟨5, 7⟩, ⟨3, 1⟩⟩ := by decide
 
 /-- **`points()` is the same list for all six vertex orders.** -/
 theorem triangle_points_order_independent (t t' : Triangle) (h : t' ∈ orders t) :
     t'.points = t.points :=
   points_of_mem_orders h
+example : (⟨⟨3, 1⟩, ⟨0, 0⟩, ⟨5, 7⟩⟩ : Triangle) ∈ orders ⟨⟨0, 0⟩, ⟨5, 7⟩, ⟨3, 1⟩⟩ := by decide
 
 /-- `points()` only depends on the sorted triple. -/
 theorem triangle_points_of_sorted (t : Triangle) : t.sortedYx.points = t.points :=
@@ -108,11 +112,13 @@ theorem triangle_points_hull (t : Triangle) (h : t.boundingBox.InRange) (p : Pt)
     p ∈ t.points ↔
       ∃ q1 q2, q1 ∈ rowPix t p.y ∧ q2 ∈ rowPix t p.y ∧ q1.x ≤ p.x ∧ p.x ≤ q2.x :=
   mem_points_iff_between t h p
+example : (⟨⟨0, 0⟩, ⟨5, 1⟩, ⟨4, 6⟩⟩ : Triangle).boundingBox.InRange := by decide
 
 /-- No point is yielded twice; the order is row-major. -/
 theorem triangle_points_row_major (t : Triangle) (h : t.boundingBox.InRange) :
     t.points.Pairwise Pt.rowMajorLt ∧ t.points.Nodup :=
   ⟨points_rowMajor t h, points_nodup t h⟩
+example : (⟨⟨0, 0⟩, ⟨5, 1⟩, ⟨4, 6⟩⟩ : Triangle).boundingBox.InRange := by decide
 
 /-! ## Two triangles sharing an edge -/
 
@@ -161,7 +167,10 @@ theorem edge_lines_covered (t : Triangle) (h : t.boundingBox.InRange) (a : t.are
     (l : Line) (hl : l ∈ t.edgeLines) (p : Pt) (hp : p ∈ Line.points l) : p ∈ t.points :=
   edge_pixel_mem_points t h (by rw [usedLines_of_nonzero a]; exact hl) hp
 
-example : (⟨⟨0, 0⟩, ⟨5, 1⟩⟩ : Line) ∈ (⟨⟨0, 0⟩, ⟨5, 1⟩, ⟨4, 6⟩⟩ : Triangle).edgeLines := by decide
+example : (⟨⟨0, 0⟩, ⟨5, 1⟩, ⟨4, 6⟩⟩ : Triangle).boundingBox.InRange ∧
+    (⟨⟨0, 0⟩, ⟨5, 1⟩, ⟨4, 6⟩⟩ : Triangle).areaDoubled ≠ 0 ∧
+    (⟨⟨0, 0⟩, ⟨5, 1⟩⟩ : Line) ∈ (⟨⟨0, 0⟩, ⟨5, 1⟩, ⟨4, 6⟩⟩ : Triangle).edgeLines ∧
+    (⟨3, 1⟩ : Pt) ∈ Line.points ⟨⟨0, 0⟩, ⟨5, 1⟩⟩ := by decide
 
 /-- The shared line does not depend on the order in which the two end points are named. -/
 theorem shared_edge_line_symmetric (u v : Pt) : sortedLine u v = sortedLine v u :=
@@ -293,6 +302,8 @@ theorem mesh_gap_free (a b c d p : Pt)
         nlinarith [mul_pos (show 0 < edgeFn c d p - edgeFn a c d by omega) hL,
           mul_pos (show 0 < edgeFn a c d by omega) (show 0 < s by omega)]
 
+example : (Triangle.mk ⟨0, 0⟩ ⟨-3, 4⟩ ⟨4, 6⟩).boundingBox.InRange ∧
+    (Triangle.mk ⟨0, 0⟩ ⟨4, 6⟩ ⟨5, 1⟩).boundingBox.InRange := by decide
 example : ((0 : Int) < cross ⟨0, 0⟩ ⟨4, 6⟩ ⟨-3, 4⟩ ∧ cross ⟨0, 0⟩ ⟨4, 6⟩ ⟨5, 1⟩ < 0) ∧
     OnOpenSegment ⟨0, 0⟩ ⟨4, 6⟩ ⟨2, 3⟩ := by
   unfold OnOpenSegment cross; decide
@@ -361,5 +372,6 @@ theorem outline_closed_form (t : Triangle) (c : Nat) (h : t.boundingBox.InRange)
     t.outlinePixels c =
       ((rowList t).flatMap (outlineRow t.sortedClockwise)).map (fun p => (p, c)) :=
   outlinePixels_eq t c h
+example : (⟨⟨0, 0⟩, ⟨5, 1⟩, ⟨4, 6⟩⟩ : Triangle).boundingBox.InRange := by decide
 
 end EG.C19
